@@ -28,6 +28,17 @@ set_option linter.unusedVariables false
 namespace J2O.C08
 open J2O.MT
 
+/-- pointwise relation of two lists of equal length (core Lean has no `List.Forall₂`) -/
+inductive Forall₂ {α β : Type} (R : α → β → Prop) : List α → List β → Prop
+  | nil : Forall₂ R [] []
+  | cons {a : α} {b : β} {l₁ : List α} {l₂ : List β} : R a b → Forall₂ R l₁ l₂ → Forall₂ R (a :: l₁) (b :: l₂)
+
+theorem Forall₂.length_eq {α β : Type} {R : α → β → Prop} {l₁ : List α} {l₂ : List β}
+    (h : Forall₂ R l₁ l₂) : l₁.length = l₂.length := by
+  induction h with
+  | nil => rfl
+  | cons _ _ ih => simp [ih]
+
 /-! ## semantics and order -/
 
 structure RT where
@@ -43,14 +54,14 @@ def dimHolds (σ : Binding) : Dim → Nat → Prop
 
 def annotHolds (σ : Binding) (a : Annot) (t : RT) : Prop :=
   (∀ d, a.dtype = some d → t.dtype = d) ∧
-  (∀ ds, a.dims = some ds → List.Forall₂ (dimHolds σ) ds t.shape)
+  (∀ ds, a.dims = some ds → Forall₂ (dimHolds σ) ds t.shape)
 
 def DimLe (d' d : Dim) : Prop := d' = d ∨ d' = .unk
 
 def AnnotLe (a' a : Annot) : Prop :=
   a'.dtype = a.dtype ∧
   ((a'.dims = none ∧ a.dims = none) ∨
-   ∃ l' l, a'.dims = some l' ∧ a.dims = some l ∧ List.Forall₂ DimLe l' l)
+   ∃ l' l, a'.dims = some l' ∧ a.dims = some l ∧ Forall₂ DimLe l' l)
 
 theorem dimLe_sound (σ : Binding) (d' d : Dim) (k : Nat) (h : DimLe d' d) (hd : dimHolds σ d k) :
     dimHolds σ d' k := by
@@ -58,15 +69,14 @@ theorem dimLe_sound (σ : Binding) (d' d : Dim) (k : Nat) (h : DimLe d' d) (hd :
   · exact hd
   · trivial
 
-theorem forall₂_dimLe_sound (σ : Binding) : ∀ (l' l : List Dim) (s : List Nat),
-    List.Forall₂ DimLe l' l → List.Forall₂ (dimHolds σ) l s → List.Forall₂ (dimHolds σ) l' s
-  | [], [], s, _, h => h
-  | d' :: l', d :: l, [], _, h => by cases h
-  | d' :: l', d :: l, k :: s, hle, h => by
-    cases hle with
-    | cons h1 h2 =>
-      cases h with
-      | cons g1 g2 => exact .cons (dimLe_sound σ d' d k h1 g1) (forall₂_dimLe_sound σ l' l s h2 g2)
+theorem forall₂_dimLe_sound (σ : Binding) {l' l : List Dim} (hle : Forall₂ DimLe l' l) :
+    ∀ s : List Nat, Forall₂ (dimHolds σ) l s → Forall₂ (dimHolds σ) l' s := by
+  induction hle with
+  | nil => intro s h; cases h; exact .nil
+  | cons h1 _ ih =>
+    intro s h
+    cases h with
+    | cons g1 g2 => exact .cons (dimLe_sound σ _ _ _ h1 g1) (ih _ g2)
 
 /-- **Weaker annotations are true whenever the stronger one is.** -/
 theorem annotLe_sound (σ : Binding) (a' a : Annot) (t : RT) (h : AnnotLe a' a)
@@ -79,7 +89,7 @@ theorem annotLe_sound (σ : Binding) (a' a : Annot) (t : RT) (h : AnnotLe a' a)
     · rw [h1] at hds; cases hds
     · rw [h1] at hds
       cases hds
-      exact forall₂_dimLe_sound σ l' l t.shape h3 (ha.2 l h2)
+      exact forall₂_dimLe_sound σ h3 t.shape (ha.2 l h2)
 
 /-- rank is kept by `AnnotLe` -/
 theorem annotLe_rank (a' a : Annot) (h : AnnotLe a' a) :
@@ -98,7 +108,7 @@ theorem loosenDim_le (r : Bool) (d : Dim) : DimLe (loosenDim r d) d := by
     · exact Or.inl rfl
     · exact Or.inr rfl
 
-theorem forall₂_loosen (r : Bool) : ∀ l : List Dim, List.Forall₂ DimLe (l.map (loosenDim r)) l
+theorem forall₂_loosen (r : Bool) : ∀ l : List Dim, Forall₂ DimLe (l.map (loosenDim r)) l
   | [] => .nil
   | d :: l => .cons (loosenDim_le r d) (forall₂_loosen r l)
 
@@ -108,15 +118,15 @@ theorem loosenAnnot_le (r : Bool) (a : Annot) : AnnotLe (loosenAnnot r a) a := b
   | none => exact Or.inl ⟨by simp [loosenAnnot, h], rfl⟩
   | some l => exact Or.inr ⟨l.map (loosenDim r), l, by simp [loosenAnnot, h], rfl, forall₂_loosen r l⟩
 
+theorem forall₂_dimLe_refl : ∀ l : List Dim, Forall₂ DimLe l l
+  | [] => .nil
+  | _ :: l => .cons (Or.inl rfl) (forall₂_dimLe_refl l)
+
 theorem annotLe_refl (a : Annot) : AnnotLe a a := by
   refine ⟨rfl, ?_⟩
   cases h : a.dims with
   | none => exact Or.inl ⟨rfl, rfl⟩
-  | some l =>
-    refine Or.inr ⟨l, l, rfl, rfl, ?_⟩
-    induction l with
-    | nil => exact .nil
-    | cons d l ih => exact .cons (Or.inl rfl) ih
+  | some l => exact Or.inr ⟨l, l, rfl, rfl, forall₂_dimLe_refl l⟩
 
 /-- relation between an entry of the processed `vinfo` and the original entry -/
 def EntryWeaker (io : List String) (e' e : String × Annot) : Prop :=
@@ -126,7 +136,7 @@ structure ScopeWeaker (g' g : Graph) : Prop where
   inputs_eq : g'.inputs = g.inputs
   inits_eq : g'.inits = g.inits
   outputs_eq : g'.outputs = g.outputs
-  entries : List.Forall₂ (EntryWeaker (g.inputs ++ g.outputs)) g'.vinfo g.vinfo
+  entries : Forall₂ (EntryWeaker (g.inputs ++ g.outputs)) g'.vinfo g.vinfo
 
 theorem touched_not_io (i t : List String) (ns : List Node) (o : List String) (r : Bool) (x : String)
     (h : (touched i t ns o r).contains x = true) : x ∉ i ++ o := by
@@ -139,7 +149,7 @@ theorem touched_not_io (i t : List String) (ns : List Node) (o : List String) (r
 
 theorem loosenVinfo_weaker (r : Bool) (names io : List String)
     (hn : ∀ x, names.contains x = true → x ∉ io) :
-    ∀ vi : List (String × Annot), List.Forall₂ (EntryWeaker io) (loosenVinfo r names vi) vi
+    ∀ vi : List (String × Annot), Forall₂ (EntryWeaker io) (loosenVinfo r names vi) vi
   | [] => .nil
   | e :: vi => by
     refine .cons ?_ (loosenVinfo_weaker r names io hn vi)
@@ -212,23 +222,23 @@ theorem loosen_weakens (r : Bool) (g : Graph) :
   obtain ⟨r', hr⟩ := loosen_at p r g g' h
   exact ⟨_, hr, loosenGraph_scope r' g'⟩
 
-theorem lookup_of_entries (io : List String) (x : String) (hx : x ∈ io) :
-    ∀ (vi' vi : List (String × Annot)), List.Forall₂ (EntryWeaker io) vi' vi → lookup x vi' = lookup x vi
-  | [], [], _ => rfl
-  | e' :: vi', e :: vi, h => by
-    cases h with
-    | cons h1 h2 =>
-      obtain ⟨k', a'⟩ := e'
-      obtain ⟨k, a⟩ := e
-      obtain ⟨hk, _, hio⟩ := h1
-      simp only at hk hio
-      subst hk
-      simp only [lookup]
-      by_cases hkx : k' = x
-      · subst hkx
-        simp [hio hx]
-      · simp only [hkx, if_false]
-        exact lookup_of_entries io x hx vi' vi h2
+theorem lookup_of_entries (io : List String) (x : String) (hx : x ∈ io)
+    {vi' vi : List (String × Annot)} (h : Forall₂ (EntryWeaker io) vi' vi) :
+    lookup x vi' = lookup x vi := by
+  induction h with
+  | nil => rfl
+  | @cons e' e _ _ h1 _ ih =>
+    obtain ⟨k', a'⟩ := e'
+    obtain ⟨k, a⟩ := e
+    obtain ⟨hk, _, hio⟩ := h1
+    simp only at hk hio
+    subst hk
+    simp only [lookup]
+    by_cases hkx : k' = x
+    · subst hkx
+      simp [hio hx]
+    · simp only [hkx, if_false]
+      exact ih
 
 /-- **Graph input/output annotations are untouched**, in every scope at every depth. -/
 theorem loosen_keeps_io (r : Bool) (g : Graph) :
@@ -237,25 +247,24 @@ theorem loosen_keeps_io (r : Bool) (g : Graph) :
         ∀ x ∈ g'.inputs ++ g'.outputs, lookup x g''.vinfo = lookup x g'.vinfo := by
   intro p g' h
   obtain ⟨g'', h1, h2⟩ := loosen_weakens r g p g' h
-  exact ⟨g'', h1, fun x hx => lookup_of_entries _ x hx _ _ h2.entries⟩
+  exact ⟨g'', h1, fun x hx => lookup_of_entries _ x hx h2.entries⟩
 
 /-- all annotations of a scope are true of the runtime valuation `ρ` -/
 def ScopeTrue (σ : Binding) (ρ : String → RT) (g : Graph) : Prop :=
   ∀ e ∈ g.vinfo, annotHolds σ e.2 (ρ e.1)
 
-theorem entries_true (σ : Binding) (ρ : String → RT) (io : List String) :
-    ∀ (vi' vi : List (String × Annot)), List.Forall₂ (EntryWeaker io) vi' vi →
-      (∀ e ∈ vi, annotHolds σ e.2 (ρ e.1)) → ∀ e ∈ vi', annotHolds σ e.2 (ρ e.1)
-  | [], [], _, _ => by intro e he; cases he
-  | e' :: vi', e :: vi, h, ht => by
-    cases h with
-    | cons h1 h2 =>
-      intro x hx
-      rcases List.mem_cons.mp hx with rfl | hx
-      · obtain ⟨hk, hle, _⟩ := h1
-        rw [hk]
-        exact annotLe_sound σ _ _ _ hle (ht e List.mem_cons_self)
-      · exact entries_true σ ρ io vi' vi h2 (fun e he => ht e (List.mem_cons_of_mem _ he)) x hx
+theorem entries_true (σ : Binding) (ρ : String → RT) (io : List String)
+    {vi' vi : List (String × Annot)} (h : Forall₂ (EntryWeaker io) vi' vi) :
+    (∀ e ∈ vi, annotHolds σ e.2 (ρ e.1)) → ∀ e ∈ vi', annotHolds σ e.2 (ρ e.1) := by
+  induction h with
+  | nil => intro _ e he; cases he
+  | @cons e' e _ _ h1 _ ih =>
+    intro ht x hx
+    rcases List.mem_cons.mp hx with rfl | hx
+    · obtain ⟨hk, hle, _⟩ := h1
+      rw [hk]
+      exact annotLe_sound σ _ _ _ hle (ht e List.mem_cons_self)
+    · exact ih (fun e he => ht e (List.mem_cons_of_mem _ he)) x hx
 
 /-- **True annotations stay true**: if every annotation of the original scope holds at run time
     (any binding, any runtime valuation), so does every annotation of the processed scope. -/
@@ -264,13 +273,13 @@ theorem loosen_sound (σ : Binding) (ρ : String → RT) (r : Bool) (g : Graph) 
       ∃ g'', (loosenGraph r g).at? p = some g'' ∧ ScopeTrue σ ρ g'' := by
   intro p g' h ht
   obtain ⟨g'', h1, h2⟩ := loosen_weakens r g p g' h
-  exact ⟨g'', h1, entries_true σ ρ _ _ _ h2.entries ht⟩
+  exact ⟨g'', h1, entries_true σ ρ _ h2.entries ht⟩
 
 /-- whole model: main graph and every function body (processed with `rankOnly = false`) -/
 theorem loosenModel_weakens (m : Model) :
     (∀ p g', m.graph.at? p = some g' →
         ∃ g'', (loosenModel m).graph.at? p = some g'' ∧ ScopeWeaker g'' g') ∧
-    (List.Forall₂ (fun f' f => f'.domain = f.domain ∧ f'.name = f.name ∧
+    (Forall₂ (fun f' f => f'.domain = f.domain ∧ f'.name = f.name ∧
         ∀ p g', f.asGraph.at? p = some g' → ∃ g'', f'.asGraph.at? p = some g'' ∧ ScopeWeaker g'' g')
       (loosenModel m).funcs m.funcs) := by
   refine ⟨loosen_weakens false m.graph, ?_⟩
@@ -304,9 +313,10 @@ theorem promoteVinfo_entry (c : List String) (e : String × Annot) (payload : Na
     (if c.contains e.1 then (e.1, { e.2 with dtype := some DOUBLE }) else e).2 = (promoteVal e.2 payload).1 := by
   unfold promoteVal
   by_cases h : payload = 1
-  · simp [h, hc.mpr h]
-  · have : ¬ (c.contains e.1 = true) := fun hh => h (hc.mp hh)
-    simp [h, this]
+  · have hm : e.1 ∈ c := List.contains_iff_mem.mp (hc.mpr h)
+    simp [h, hm]
+  · have hm : e.1 ∉ c := fun hh => h (hc.mp (List.contains_iff_mem.mpr hh))
+    simp [h, hm]
 
 /-! ## `_broadcast_shape_dims` -/
 
@@ -435,31 +445,32 @@ theorem stepDim_inv (σ : Binding) (m : Nat) (r d r' : Dim) (c : Nat) (P : List 
       subst hs
       exact Or.inl trivial
 
-theorem foldStep_inv (σ : Binding) (m : Nat) : ∀ (ds : List Dim) (cs : List Nat) (r res : Dim)
-    (P : List Nat), List.Forall₂ (dimHolds σ) ds cs → (∀ c ∈ cs, c = 1 ∨ c = m) → Inv σ m r P →
-    foldStep r ds = some res → Inv σ m res (cs.reverse ++ P)
-  | [], [], r, res, P, _, _, hinv, hs => by
+theorem foldStep_inv (σ : Binding) (m : Nat) {ds : List Dim} {cs : List Nat}
+    (hf : Forall₂ (dimHolds σ) ds cs) : ∀ (r res : Dim) (P : List Nat),
+    (∀ c ∈ cs, c = 1 ∨ c = m) → Inv σ m r P →
+    foldStep r ds = some res → Inv σ m res (cs.reverse ++ P) := by
+  induction hf with
+  | nil =>
+    intro r res P _ hinv hs
     simp only [foldStep, Option.some.injEq] at hs
     subst hs
     simpa using hinv
-  | d :: ds, c :: cs, r, res, P, hf, hc, hinv, hs => by
-    cases hf with
-    | cons h1 h2 =>
-      simp only [foldStep] at hs
-      split at hs
-      · cases hs
-      · rename_i r' hr'
-        have hi := stepDim_inv σ m r d r' c P hinv h1 (hc c List.mem_cons_self) hr'
-        have := foldStep_inv σ m ds cs r' res (c :: P) h2
-          (fun x hx => hc x (List.mem_cons_of_mem _ hx)) hi hs
-        simpa [List.reverse_cons, List.append_assoc] using this
+  | @cons d c ds cs h1 _ ih =>
+    intro r res P hc hinv hs
+    simp only [foldStep] at hs
+    split at hs
+    · cases hs
+    · rename_i r' hr'
+      have hi := stepDim_inv σ m r d r' c P hinv h1 (hc c List.mem_cons_self) hr'
+      have := ih r' res (c :: P) (fun x hx => hc x (List.mem_cons_of_mem _ hx)) hi hs
+      simpa [List.reverse_cons, List.append_assoc] using this
 
 /-- one axis: the resolved dim is true of the broadcast extent -/
 theorem axis_sound (σ : Binding) (ds : List Dim) (cs : List Nat) (m : Nat) (res : Dim)
-    (hf : List.Forall₂ (dimHolds σ) ds cs) (hb : AxisB cs m)
+    (hf : Forall₂ (dimHolds σ) ds cs) (hb : AxisB cs m)
     (hs : foldStep (.known 1) ds = some res) : dimHolds σ res m := by
   have h0 : Inv σ m (.known 1) [] := Or.inr ⟨by simp [dimHolds], by intro c hc; cases hc⟩
-  have := foldStep_inv σ m ds cs (.known 1) res [] hf hb.1 h0 hs
+  have := foldStep_inv σ m hf (.known 1) res [] hb.1 h0 hs
   rcases this with h | ⟨h, hall⟩
   · exact h
   · have hm1 : m = 1 := by
@@ -468,33 +479,31 @@ theorem axis_sound (σ : Binding) (ds : List Dim) (cs : List Nat) (m : Nat) (res
       · exact hall m (by simpa using hm)
     rw [hm1]; exact h
 
-theorem heads_hold (σ : Binding) : ∀ (shapes : List (List Dim)) (cs : List (List Nat)),
-    List.Forall₂ (List.Forall₂ (dimHolds σ)) shapes cs →
-    List.Forall₂ (dimHolds σ) (shapes.map headD) (cs.map headN)
-  | [], [], _ => .nil
-  | s :: shapes, c :: cs, h => by
-    cases h with
-    | cons h1 h2 =>
-      refine .cons ?_ (heads_hold σ shapes cs h2)
-      cases h1 with
-      | nil => simp [headD, headN, dimHolds]
-      | cons g1 _ => simpa [headD, headN] using g1
+theorem heads_hold (σ : Binding) {shapes : List (List Dim)} {cs : List (List Nat)}
+    (h : Forall₂ (Forall₂ (dimHolds σ)) shapes cs) :
+    Forall₂ (dimHolds σ) (shapes.map headD) (cs.map headN) := by
+  induction h with
+  | nil => exact .nil
+  | cons h1 _ ih =>
+    refine .cons ?_ ih
+    cases h1 with
+    | nil => simp [headD, headN, dimHolds]
+    | cons g1 _ => simpa [headD, headN] using g1
 
-theorem tails_hold (σ : Binding) : ∀ (shapes : List (List Dim)) (cs : List (List Nat)),
-    List.Forall₂ (List.Forall₂ (dimHolds σ)) shapes cs →
-    List.Forall₂ (List.Forall₂ (dimHolds σ)) (shapes.map List.tail) (cs.map List.tail)
-  | [], [], _ => .nil
-  | s :: shapes, c :: cs, h => by
-    cases h with
-    | cons h1 h2 =>
-      refine .cons ?_ (tails_hold σ shapes cs h2)
-      cases h1 with
-      | nil => exact .nil
-      | cons _ g2 => simpa using g2
+theorem tails_hold (σ : Binding) {shapes : List (List Dim)} {cs : List (List Nat)}
+    (h : Forall₂ (Forall₂ (dimHolds σ)) shapes cs) :
+    Forall₂ (Forall₂ (dimHolds σ)) (shapes.map List.tail) (cs.map List.tail) := by
+  induction h with
+  | nil => exact .nil
+  | cons h1 _ ih =>
+    refine .cons ?_ ih
+    cases h1 with
+    | nil => exact .nil
+    | cons _ g2 => simpa using g2
 
 theorem bcastPadded_sound (σ : Binding) : ∀ (r : Nat) (shapes : List (List Dim)) (cs : List (List Nat))
-    (res : List Dim) (out : List Nat), List.Forall₂ (List.Forall₂ (dimHolds σ)) shapes cs →
-    NpPadded r cs out → bcastPadded r shapes = some res → List.Forall₂ (dimHolds σ) res out
+    (res : List Dim) (out : List Nat), Forall₂ (Forall₂ (dimHolds σ)) shapes cs →
+    NpPadded r cs out → bcastPadded r shapes = some res → Forall₂ (dimHolds σ) res out
   | 0, shapes, cs, res, out, _, hn, hs => by
     simp only [NpPadded] at hn
     simp only [bcastPadded, Option.some.injEq] at hs
@@ -511,42 +520,39 @@ theorem bcastPadded_sound (σ : Binding) : ∀ (r : Nat) (shapes : List (List Di
       · rename_i rs hrs
         simp only [Option.some.injEq] at hs
         subst hs; subst ho
-        exact .cons (axis_sound σ _ _ m d (heads_hold σ shapes cs hf) hax hd)
-          (bcastPadded_sound σ r _ _ rs rest (tails_hold σ shapes cs hf) hrest hrs)
+        exact .cons (axis_sound σ _ _ m d (heads_hold σ hf) hax hd)
+          (bcastPadded_sound σ r _ _ rs rest (tails_hold σ hf) hrest hrs)
 
-theorem maxRank_eq (σ : Binding) : ∀ (shapes : List (List Dim)) (cs : List (List Nat)),
-    List.Forall₂ (List.Forall₂ (dimHolds σ)) shapes cs → maxRank shapes = maxRankN cs
-  | [], [], _ => rfl
-  | s :: shapes, c :: cs, h => by
-    cases h with
-    | cons h1 h2 =>
-      simp only [maxRank, maxRankN, h1.length_eq, maxRank_eq σ shapes cs h2]
+theorem maxRank_eq (σ : Binding) {shapes : List (List Dim)} {cs : List (List Nat)}
+    (h : Forall₂ (Forall₂ (dimHolds σ)) shapes cs) : maxRank shapes = maxRankN cs := by
+  induction h with
+  | nil => rfl
+  | cons h1 _ ih => simp only [maxRank, maxRankN, h1.length_eq, ih]
 
 theorem replicate_hold (σ : Binding) : ∀ k : Nat,
-    List.Forall₂ (dimHolds σ) (List.replicate k (Dim.known 1)) (List.replicate k 1)
+    Forall₂ (dimHolds σ) (List.replicate k (Dim.known 1)) (List.replicate k 1)
   | 0 => .nil
   | k + 1 => by
     simp only [List.replicate_succ]
     exact .cons (by simp [dimHolds]) (replicate_hold σ k)
 
-theorem forall₂_append {α β : Type} (R : α → β → Prop) : ∀ (a₁ : List α) (b₁ : List β) (a₂ : List α)
-    (b₂ : List β), List.Forall₂ R a₁ b₁ → List.Forall₂ R a₂ b₂ → List.Forall₂ R (a₁ ++ a₂) (b₁ ++ b₂)
-  | [], [], _, _, _, h2 => h2
-  | x :: a₁, y :: b₁, a₂, b₂, h1, h2 => by
-    cases h1 with
-    | cons g1 g2 => exact .cons g1 (forall₂_append R a₁ b₁ a₂ b₂ g2 h2)
+theorem forall₂_append {α β : Type} (R : α → β → Prop) {a₁ : List α} {b₁ : List β}
+    (h1 : Forall₂ R a₁ b₁) : ∀ {a₂ : List α} {b₂ : List β}, Forall₂ R a₂ b₂ →
+    Forall₂ R (a₁ ++ a₂) (b₁ ++ b₂) := by
+  induction h1 with
+  | nil => intro _ _ h2; exact h2
+  | cons g1 _ ih => intro _ _ h2; exact .cons g1 (ih h2)
 
-theorem pads_hold (σ : Binding) (r : Nat) : ∀ (shapes : List (List Dim)) (cs : List (List Nat)),
-    List.Forall₂ (List.Forall₂ (dimHolds σ)) shapes cs →
-    List.Forall₂ (List.Forall₂ (dimHolds σ)) (shapes.map (padDims r)) (cs.map (padNat r))
-  | [], [], _ => .nil
-  | s :: shapes, c :: cs, h => by
-    cases h with
-    | cons h1 h2 =>
-      refine .cons ?_ (pads_hold σ r shapes cs h2)
-      unfold padDims padNat
-      rw [h1.length_eq]
-      exact forall₂_append _ _ _ _ _ (replicate_hold σ _) h1
+theorem pads_hold (σ : Binding) (r : Nat) {shapes : List (List Dim)} {cs : List (List Nat)}
+    (h : Forall₂ (Forall₂ (dimHolds σ)) shapes cs) :
+    Forall₂ (Forall₂ (dimHolds σ)) (shapes.map (padDims r)) (cs.map (padNat r)) := by
+  induction h with
+  | nil => exact .nil
+  | cons h1 _ ih =>
+    refine .cons ?_ ih
+    unfold padDims padNat
+    rw [h1.length_eq]
+    exact forall₂_append _ (replicate_hold σ _) h1
 
 /-- **Soundness of the broadcast annotation.**  (H1) `cs` are runtime shapes consistent with the
     input annotations `shapes` under ONE binding `σ`; (H2) `cs` are numpy-broadcastable with result
@@ -554,14 +560,14 @@ theorem pads_hold (σ : Binding) (r : Nat) : ∀ (shapes : List (List Dim)) (cs 
     (and it has the right rank). -/
 theorem broadcastDims_sound (σ : Binding) (shapes : List (List Dim)) (cs : List (List Nat))
     (res : List Dim) (out : List Nat)
-    (H1 : List.Forall₂ (List.Forall₂ (dimHolds σ)) shapes cs) (H2 : NpBroadcast cs out)
-    (h : broadcastDims shapes = some res) : List.Forall₂ (dimHolds σ) res out := by
+    (H1 : Forall₂ (Forall₂ (dimHolds σ)) shapes cs) (H2 : NpBroadcast cs out)
+    (h : broadcastDims shapes = some res) : Forall₂ (dimHolds σ) res out := by
   unfold broadcastDims at h
   split at h
   · cases h
   · unfold NpBroadcast at H2
-    rw [← maxRank_eq σ shapes cs H1] at H2
-    exact bcastPadded_sound σ _ _ _ res out (pads_hold σ _ shapes cs H1) H2 h
+    rw [← maxRank_eq σ H1] at H2
+    exact bcastPadded_sound σ _ _ _ res out (pads_hold σ _ H1) H2 h
 
 /-! ## non-vacuity -/
 
